@@ -132,6 +132,32 @@ def f_low_vertex(e, v):
     return getattr(v, "idx", 0) < 3
 
 
+def _at_least(n):
+    """Closure factory: the returned functions share ONE code object but are different filters."""
+
+    def at_least(e, v):
+        return getattr(v, "idx", 0) >= n
+
+    return at_least
+
+
+f_min1 = _at_least(1)
+f_min3 = _at_least(3)
+
+
+class TagMod:
+    """Callable-by-bound-method filters: same function, different bound state."""
+
+    def __init__(self, m):
+        self.m = m
+
+    def ok(self, e, v):
+        return getattr(e, "tag", 0) % self.m == 0
+
+
+f_tagmod2 = TagMod(2).ok
+f_tagmod3 = TagMod(3).ok
+
 NB_FILTERS = {
     "none": None,
     "accept": f_accept,
@@ -140,6 +166,10 @@ NB_FILTERS = {
     "tagged_edge": f_tagged_edge,
     "not_directed": f_not_directed,
     "low_vertex": f_low_vertex,
+    "min1": f_min1,
+    "min3": f_min3,
+    "tagmod2": f_tagmod2,
+    "tagmod3": f_tagmod3,
 }
 
 
